@@ -207,6 +207,27 @@ Section Cache.
     end.
 End Cache.
 
+(* ---- immutability of the metadata / model classes (DataInfo, ColumnInfo, Parameter(s), ...) -------------- *)
+(* where a store into an attribute of an instance of an Immutable class occurs *)
+Inductive skind : Type :=
+| SInit        (* inside __init__ / __new__ / __setstate__ on the instance under construction *)
+| SCache       (* the `_hash` cache *)
+| SSingleton   (* a class attribute set once in __new__ (Output) *)
+| SOther.      (* anywhere else: a field of an existing instance is changed *)
+Definition skind_allowed (k : skind) : bool := match k with SOther => false | _ => true end.
+(* an instance: its fields (what ==, to_dict, the API observe) and its cache; what one store does to it *)
+Record inst := mkinst { i_fields : nat -> nat; i_cache : option nat }.
+Definition store (k : skind) (fld val : nat) (o : inst) : inst :=
+  match k with
+  | SCache => mkinst (i_fields o) (Some val)
+  | SSingleton => o
+  | SInit | SOther => mkinst (fun g => if Nat.eqb g fld then val else i_fields o g) (i_cache o)
+  end.
+(* a method body after construction = a list of stores *)
+Definition run_stores (l : list (skind * nat * nat)) (o : inst) : inst :=
+  fold_left (fun o' s => store (fst (fst s)) (snd (fst s)) (snd s) o') l o.
+Definition post_construction (k : skind) : bool := match k with SCache | SSingleton => true | _ => false end.
+
 (* ---- __eq__ / __hash__ as term tables ---------------------------------------------------------- *)
 (* a term is (field, how): how = 0 the raw attribute, n > 0 the attribute seen through some function *)
 Definition term := (positive * nat)%type.
